@@ -483,7 +483,8 @@ func (l *leader) setCommitIndex(index uint64) {
 		println(l, "log.Commit", index)
 	}
 	l.storage.commitLog(index)
-	if l.commitIndex < l.startIndex && index >= l.startIndex {
+	commitReady := l.commitIndex < l.startIndex && index >= l.startIndex
+	if commitReady {
 		l.logger.Info("ready for commit")
 		if tracer.commitReady != nil {
 			tracer.commitReady(l.Raft)
@@ -503,6 +504,9 @@ func (l *leader) setCommitIndex(index uint64) {
 		} else {
 			l.checkConfigActions(nil, l.configs.Latest)
 		}
+	} else if commitReady {
+		// actions pending in config had to wait for this
+		l.checkConfigActions(nil, l.configs.Latest)
 	}
 }
 
